@@ -19,12 +19,17 @@ from harness import tlc
 from checks import loader_common as lc
 from checks.c10 import MC_CFG
 
+MC_MERGE = MC_CFG.replace(' Overwrite = TRUE', ' Overwrite = FALSE').replace('INVARIANT LongLivedEqualsFresh\nINVARIANT LongLivedExact\n', '')
+
 
 def run(ctx):
     q = ctx.quick
     for variant, en, n in ([('renamed', False, 3)] if q else [('renamed', False, 4), ('split', False, 4), ('same', False, 4), ('plain', True, 4)]):
         res = tlc.run('MC_Loader', MC_CFG % (n, 'TRUE' if en else 'FALSE', variant, 'TRUE'), coverage=not q, timeout=3400)
         ctx.add_mc('MC_Loader(MaxOps=%d,%s,enforce_new=%s)' % (n, variant, en), res)
+    # merge mode (overwrite off): reload idempotence incl. forced reloads, cache coherence
+    res = tlc.run('MC_Loader', MC_MERGE % (3 if q else 4, 'FALSE', 'renamed', 'TRUE'), coverage=not q, timeout=3400)
+    ctx.add_mc('MC_Loader(overwrite off, MaxOps=%d, renamed)' % (3 if q else 4), res)
     rng = ctx.rng
     n_inter = 0
     ops = ['load', 'forceload', 'enforce', 'edit']
@@ -45,7 +50,8 @@ def run(ctx):
     for k, seq in plans:
         variant = rng.choice(['renamed', 'renamed', 'split', 'same', 'plain', 'renamed_same'])
         shared = lc.defaults_for(variant, rng.randrange(len(lc.STYLES)))
-        lives = [lc.Live(rng, variant, rng.random() < 0.5, defaults=shared, via=rng.choice(['enforce', 'rules'])) for _ in range(k)]
+        # each enforcer has its own option values: enforce_new_defaults and the overwrite mode
+        lives = [lc.Live(rng, variant, rng.random() < 0.5, defaults=shared, via=rng.choice(['enforce', 'rules']), overwrite=rng.random() < 0.7) for _ in range(k)]
         try:
             # each enforcer starts from its own files
             for lv in lives:
@@ -68,13 +74,13 @@ def run(ctx):
                 lv.close()
         n_inter += 1
         for ei, lv in enumerate(lives):
-            by_cfg.setdefault((variant, lv.enforce_new), []).append((lv.trace, k, seq, ei))
-    for (variant, en), items in sorted(by_cfg.items()):
+            by_cfg.setdefault((variant, lv.enforce_new, lv.overwrite), []).append((lv.trace, k, seq, ei))
+    for (variant, en, ow), items in sorted(by_cfg.items()):
         traces = [it[0] for it in items]
-        for idx, why, step in lc.judge_traces(ctx, variant, en, traces):
+        for idx, why, step in lc.judge_traces(ctx, variant, en, traces, overwrite=ow):
             tr, k, seq, ei = items[idx]
             ctx.violation('%s:%s' % (why, variant), 'a history of loads across enforcers sharing their default objects is rejected: ' + why,
-                          {'variant': variant, 'enforce_new_defaults': en, 'enforcers': k, 'interleaving': seq, 'this_enforcer': ei,
+                          {'variant': variant, 'enforce_new_defaults': en, 'overwrite': ow, 'enforcers': k, 'interleaving': seq, 'this_enforcer': ei,
                            'rejected_at_event': step, 'why': why, 'trace': tr[:step]})
         if len(ctx.samples) < 4:
             ctx.sample({'variant': variant, 'enforce_new_defaults': en, 'enforcers': items[0][1], 'interleaving': items[0][2], 'trace_of_enforcer_0': items[0][0][:6]})
